@@ -1,4 +1,5 @@
 import PhyModel.Proofs.MemoBridge
+import PhyModel.Model.Proposal
 /-! # C14 — memoised recursion and proposal results equal unmemoised computation
 
 Property theorems only; helper lemmas live in `Proofs/CacheProofs.lean` (LRU table) and
@@ -125,18 +126,16 @@ theorem trace_values {E A K V : Type} [DecidableEq K] (key : E → A → K) (f :
 
 /-! ## the proposal caches
 
-Full statement (`proposal_key_complete`): the proposal table built by
-`SemiAdaptedProposalDistribution` / `FullyAdaptedProposalDistribution` and the tree built by
-`get_cached_new_tree` are functions of exactly (data point, kernel parameters, parent tree, outlier
-proposal probability, alpha) — all of which are components of the `lru_cache` key — so that
-`cache_sound` applies to them.  That needs the proposal model (`Model/Proposal.lean`, written
-separately by the lead, not available in this slice).  What is proved here is the table-level half:
-for *any* function of (environment, argument) a key that carries both is sound across environment
-changes and clears, and (example above) a key that drops the environment is not.
+`_get_cached_semi_proposal_dist` / `_get_cached_full_proposal_dist` are `lru_cache`d on
+`(data_point, kernel, parent_particle, outlier_proposal_prob, alpha)` and `get_cached_new_tree` on
+`(parent_particle, data_point, children, tree_dist, perm_dist)` (`tree_dist` hashes as its `alpha`).
+The proposal model is `Model/Proposal.lean`: `table dt c first p i` is the proposal table
+(`log_p()` of every placement), `Cfg` carries the kernel parameters (`kind`, `op`, `usePerm`) and
+`α`; the data set `dt` is fixed per process.  The generic half — any key that carries both the
+environment and the argument is sound — is `env_key_sound`; the proposal-specific half is that the
+modelled table and new-clone tree take no input beyond the key's components. -/
 
--- OBLIGATION-OPEN proposal_key_complete: needs Model/Proposal.lean — show that the modelled semi- and fully-adapted proposal table and the new-clone tree depend only on (data point, kernel parameters, parent tree, outlier proposal probability, alpha), i.e. instantiate `table` below with the proposal model; until then the real proposal caches are covered by the shadow comparison of the correspondence check only
--/
-theorem proposal_key_complete_partial {Alpha Arg V : Type} [DecidableEq Alpha] [DecidableEq Arg]
+theorem env_key_sound {Alpha Arg V : Type} [DecidableEq Alpha] [DecidableEq Arg]
     (table : Alpha → Arg → V) (cap : ℕ) (ops : List (Op Alpha Arg)) :
     (run (fun α a => (a, α)) table ⟨[], cap⟩ ops).2 = direct table ops := by
   apply Cache.cache_sound_from_empty
@@ -149,5 +148,146 @@ example :
     (runTrace (fun (α : ℕ) (a : ℕ) => (a, α)) (fun α a => 100 * α + a) ⟨[], 8⟩
       [.call 1 0, .call 2 0, .call 1 0]).map (fun t => (t.1, t.2.1)) =
       [(false, some 100), (false, some 200), (true, some 100)] := by decide +kernel
+
+open PhyModel.Proposal
+
+/-- what the key of `_get_cached_{semi,full}_proposal_dist` carries: data point, kernel parameters
+(proposal kind, outlier proposal probability, with / without permutation distribution), parent
+particle (`first` = `parent_particle is None`, else its tree `p`) and `alpha` -/
+abbrev PKey := ℕ × Prop3 × ℚ × Bool × Bool × T × ℚ
+
+instance : DecidableEq PKey :=
+  have : DecidableEq (Bool × Bool × T × ℚ) := inferInstance
+  inferInstance
+
+def proposalKey (c : Cfg) (first : Bool) (p : T) (i : ℕ) : PKey :=
+  (i, c.kind, c.op, c.usePerm, first, p, c.α)
+
+/-- the `TreeHolder`s of the new-clone placements (`get_cached_new_tree`): each tree with a new
+clone holding `i` above a subset of the top-level clones of `p`, together with its cached
+`log_p`, `log_p_one` and permutation `log_pdf` -/
+def newTrees (dt : Data) (c : Cfg) (p : T) (i : ℕ) : List (T × ℚ × ℚ × ℚ) :=
+  (placements p i).filterMap fun (k, t) =>
+    match k with
+    | .newNode _ => some (t, pMargT dt c t, pOneT dt c t, pdfOf c t)
+    | _ => none
+
+/-- one call of `get_cached_new_tree`: `j` numbers the subset of top-level clones that become the
+children of the new clone -/
+def newTree (dt : Data) (c : Cfg) (p : T) (i j : ℕ) : Option (T × ℚ × ℚ × ℚ) := (newTrees dt c p i)[j]?
+
+/-- what the key of `get_cached_new_tree` carries: parent particle, data point, children, `alpha`
+(the hash of `tree_dist`), with / without permutation distribution -/
+abbrev NKey := T × ℕ × ℕ × ℚ × Bool
+
+def newTreeKey (c : Cfg) (p : T) (i j : ℕ) : NKey := (p, i, j, c.α, c.usePerm)
+
+theorem newTrees_congr (dt : Data) (c₁ c₂ : Cfg) (p : T) (i : ℕ) (hα : c₁.α = c₂.α)
+    (hp : c₁.usePerm = c₂.usePerm) : newTrees dt c₁ p i = newTrees dt c₂ p i := by
+  unfold newTrees pMargT pOneT pdfOf
+  rw [hα, hp]
+
+/-- **key completeness of the proposal caches.**  For a fixed data set, the proposal table of all
+three proposals is a function of the key `(i, kind, op, usePerm, first, p, α)` and the new-clone
+tree (with its cached densities) is a function of the key `(p, i, children, α, usePerm)`:
+equal keys give equal results, whatever else differs between the two calls. -/
+theorem proposal_key_complete (dt : Data) :
+    (∀ (c₁ c₂ : Cfg) (first₁ first₂ : Bool) (p₁ p₂ : T) (i₁ i₂ : ℕ),
+      proposalKey c₁ first₁ p₁ i₁ = proposalKey c₂ first₂ p₂ i₂ →
+      table dt c₁ first₁ p₁ i₁ = table dt c₂ first₂ p₂ i₂) ∧
+    (∀ (c₁ c₂ : Cfg) (p₁ p₂ : T) (i₁ i₂ j₁ j₂ : ℕ),
+      newTreeKey c₁ p₁ i₁ j₁ = newTreeKey c₂ p₂ i₂ j₂ →
+      newTree dt c₁ p₁ i₁ j₁ = newTree dt c₂ p₂ i₂ j₂) := by
+  constructor
+  · intro c₁ c₂ first₁ first₂ p₁ p₂ i₁ i₂ h
+    obtain ⟨k₁, o₁, a₁, u₁⟩ := c₁
+    obtain ⟨k₂, o₂, a₂, u₂⟩ := c₂
+    simp only [proposalKey, Prod.mk.injEq] at h
+    obtain ⟨rfl, rfl, rfl, rfl, rfl, rfl, rfl⟩ := h
+    rfl
+  · intro c₁ c₂ p₁ p₂ i₁ i₂ j₁ j₂ h
+    simp only [newTreeKey, Prod.mk.injEq] at h
+    obtain ⟨rfl, rfl, rfl, hα, hp⟩ := h
+    unfold newTree
+    rw [newTrees_congr dt c₁ c₂ p₁ i₁ hα hp]
+
+/-- argument of a proposal-cache call (everything in the key except `alpha`, which is read from
+`tree_dist.prior.alpha` at call time and changes between calls) -/
+structure PArg where
+  i : ℕ
+  kind : Prop3
+  op : ℚ
+  usePerm : Bool
+  first : Bool
+  p : T
+
+/-- the key and the unmemoised function of `_get_cached_{semi,full}_proposal_dist` in the shape of
+`cache_sound`: environment = current `alpha` -/
+def pKey (α : ℚ) (a : PArg) : PKey := proposalKey ⟨a.kind, a.op, α, a.usePerm⟩ a.first a.p a.i
+def pTable (dt : Data) (α : ℚ) (a : PArg) : List (T × ℚ) :=
+  table dt ⟨a.kind, a.op, α, a.usePerm⟩ a.first a.p a.i
+
+/-- argument of a `get_cached_new_tree` call: `(usePerm, p, i, children)` -/
+abbrev NArg := Bool × T × ℕ × ℕ
+def nKey (α : ℚ) (a : NArg) : NKey := newTreeKey ⟨.semi, 0, α, a.1⟩ a.2.1 a.2.2.1 a.2.2.2
+def nTree (dt : Data) (α : ℚ) (a : NArg) : Option (T × ℚ × ℚ × ℚ) :=
+  newTree dt ⟨.semi, 0, α, a.1⟩ a.2.1 a.2.2.1 a.2.2.2
+
+/-- `nTree` is the new-clone tree of any configuration with that `alpha` and permutation setting
+(the proposal kind and the outlier proposal probability do not enter) -/
+theorem newTree_eq_nTree (dt : Data) (c : Cfg) (p : T) (i j : ℕ) :
+    newTree dt c p i j = nTree dt c.α (c.usePerm, p, i, j) :=
+  (proposal_key_complete dt).2 c ⟨.semi, 0, c.α, c.usePerm⟩ p p i i j j rfl
+
+/-- **C14 for the proposal-distribution caches**: for every history of calls (any data point,
+kernel, parent particle), cache clears and `alpha` changes, at every capacity, the memoised
+proposal table is the unmemoised one -/
+theorem proposal_memo_sound (dt : Data) (cap : ℕ) (ops : List (Op ℚ PArg)) :
+    (run pKey (pTable dt) ⟨[], cap⟩ ops).2 = direct (pTable dt) ops :=
+  Cache.cache_sound_from_empty _ _
+    (fun _ _ _ _ h => (proposal_key_complete dt).1 _ _ _ _ _ _ _ _ h) cap ops
+
+/-- **C14 for `get_cached_new_tree`** -/
+theorem new_tree_memo_sound (dt : Data) (cap : ℕ) (ops : List (Op ℚ NArg)) :
+    (run nKey (nTree dt) ⟨[], cap⟩ ops).2 = direct (nTree dt) ops :=
+  Cache.cache_sound_from_empty _ _
+    (fun _ _ _ _ h => (proposal_key_complete dt).2 _ _ _ _ _ _ _ _ h) cap ops
+
+/-! ### non-vacuity, and `alpha` is needed in the key -/
+
+/-- two data points on a grid of size 2, one sample -/
+def exDt : Data := ⟨2, 1, [[[1, 1/2]], [[1/2, 1]]], [0, 0], [1, 1]⟩
+/-- parent particle: data point 0 alone in one clone -/
+def exP : T := T.mk' (.cons [0] .nil .nil) []
+
+/-- the fully-adapted table of data point 1 on `exP` at `alpha = 1`: join the clone, new clone above
+it, new clone beside it -/
+example : (table exDt ⟨.full, 0, 1, false⟩ false exP 1).map (·.2) = [72/101, 20/101, 9/101] ∧
+    (newTrees exDt ⟨.semi, 0, 1, false⟩ exP 1).length = 2 := by decide +kernel
+
+/-- a key omitting `alpha` is NOT sound on the real table: two configurations that agree on
+`(i, kind, op, usePerm, first, p)` and have different proposal tables -/
+example :
+    let c₁ : Cfg := ⟨.full, 0, 1, false⟩
+    let c₂ : Cfg := ⟨.full, 0, 2, false⟩
+    (1, c₁.kind, c₁.op, c₁.usePerm, false, exP) = (1, c₂.kind, c₂.op, c₂.usePerm, false, exP) ∧
+    table exDt c₁ false exP 1 ≠ table exDt c₂ false exP 1 := by decide +kernel
+
+/-- … and the memo table then returns a stale proposal distribution after a concentration update,
+while with `alpha` in the key the same history (alpha 1 → 2 → 1: miss, miss, hit) is served
+correctly -/
+example :
+    let a : PArg := ⟨1, .full, 0, false, false, exP⟩
+    (run (fun _ (a : PArg) => (a.i, a.kind, a.op, a.usePerm, a.first, a.p)) (pTable exDt) ⟨[], 8⟩
+        [.call 1 a, .call 2 a]).2 ≠ direct (pTable exDt) [.call 1 a, .call 2 a] ∧
+    (runTrace pKey (pTable exDt) ⟨[], 8⟩ [.call 1 a, .call 2 a, .call 1 a]).map (fun t => t.1) =
+      [false, false, true] ∧
+    (run pKey (pTable exDt) ⟨[], 8⟩ [.call 1 a, .call 2 a, .call 1 a]).2 =
+      direct (pTable exDt) [.call 1 a, .call 2 a, .call 1 a] := by
+  refine ⟨by decide +kernel, by decide +kernel, by decide +kernel⟩
+
+/-- the new-clone tree depends on `alpha` too (through the cached `log_p`) -/
+example : nTree exDt 1 (false, exP, 1, 0) ≠ nTree exDt 2 (false, exP, 1, 0) ∧
+    (nTree exDt 1 (false, exP, 1, 0)).isSome := by decide +kernel
 
 end PhyModel.Props.C14
